@@ -75,6 +75,9 @@ def c01(ctx):
     RA.rule_cover(ctx, mk)
     RA.rule_other_ro(ctx, mk)
     RA.rule_sumcounters(ctx, mk)
+    RT.rule_wrapper_once(ctx, lin)
+    RT.rule_state_owner(ctx, lin)
+    RA.rule_no_skip(ctx, aks)
     ctx.floor("qmin", 5)
     ctx.floor("cons", 3)
     ctx.floor("msum", 3)
@@ -99,6 +102,9 @@ def c05(ctx):
     RA.rule_mono(ctx, {"cms"})
     RA.rule_logstep(ctx)
     RA.rule_nadd_once(ctx, RA.add_kernels(F))
+    RT.rule_wrapper_once(ctx, COUNTMIN, ("add", "query"))
+    RA.rule_no_skip(ctx, RA.add_kernels(F))
+    ctx.floor("no-skip", 6)
     ctx.floor("qmin", 15)
     ctx.floor("cons", 9)
     ctx.floor("addr", 3)
@@ -131,6 +137,8 @@ def c03(ctx):
     RA.rule_cap(ctx, hh)
     RH.rule_maxcount(ctx)
     RH.rule_report(ctx)
+    RT.rule_wrapper_once(ctx, hh)
+    RT.rule_state_owner(ctx, hh)
     ctx.floor("keyid", 3)
     ctx.floor("bm-table", 8)
     ctx.floor("range", 20)
@@ -159,6 +167,9 @@ def c04(ctx):
     RH.rule_skip_zero(ctx)
     mk = RA.merge_kernels(F, hh)
     RA.rule_cover(ctx, mk)
+    RT.rule_wrapper_once(ctx, hh)
+    RT.rule_state_owner(ctx, hh)
+    RA.rule_no_skip(ctx, [RH.hh_kernels(F)["add"]])
     ctx.floor("keyid", 3)
     ctx.floor("bm-table", 8)
     ctx.floor("keynorm", 4)
@@ -189,6 +200,8 @@ def c13(ctx):
     ks = RH.hh_kernels(F)
     RA.rule_nadd_once(ctx, [ks["add"]])
     RA.rule_sumcounters(ctx, [ks["merge"]])
+    RT.rule_wrapper_once(ctx, hh)
+    RT.rule_state_owner(ctx, hh)
     ctx.floor("cachekey", 6)
     ctx.floor("mutators", 3)
     ctx.floor("filter", 4)
@@ -209,6 +222,8 @@ from . import rules_tables as RT
       trusted=("NumPy scalar != is value comparison", "Python `or` short-circuits left to right"))
 def c15(ctx):
     RT.rule_mergeguard(ctx)
+    RT.rule_wrapper_once(ctx, SKETCH_CLASSES, ("merge",))
+    RT.rule_state_owner(ctx)
     RA.rule_attr_type(ctx)
     ctx.floor("guard-first", 20)
     ctx.floor("guard-set", 18 + 5)
@@ -229,6 +244,8 @@ def c10(ctx):
     RA.rule_attr_type(ctx)
     RT.rule_dispatch(ctx)
     RT.rule_post_load(ctx)
+    RT.rule_reload_valid(ctx)
+    RT.rule_state_owner(ctx)
     RA.rule_ceil(ctx)
     ctx.floor("persist-table", 30)
     ctx.floor("ctor-args", 20)
@@ -263,6 +280,7 @@ def c16(ctx):
     RT.rule_argsdict(ctx)
     RT.rule_factory(ctx)
     RT.rule_attach_table(ctx)
+    RT.rule_state_owner(ctx)
     RA.rule_ceil(ctx)
     ctx.floor("layout", 60)
     ctx.floor("alloc-agree", 12)
@@ -283,6 +301,7 @@ def c12(ctx):
     RT.rule_deleg(ctx)
     RT.rule_window(ctx)
     RT.rule_value_fwd(ctx)
+    RT.rule_wrapper_once(ctx)
     ctx.floor("deleg", 12)
     ctx.floor("window", 20)
     ctx.floor("value-fwd", 12)
@@ -318,6 +337,8 @@ def c02(ctx):
     RA.rule_other_ro(ctx, [ks["merge"]])
     RT.rule_mergeguard(ctx, hll)
     RT.rule_window(ctx)
+    RT.rule_wrapper_once(ctx, hll)
+    RT.rule_state_owner(ctx, hll)
     ctx.floor("nlz", 66)
     ctx.floor("join", 3)
     ctx.floor("indep", 1)
@@ -405,6 +426,8 @@ def c09(ctx):
     RA.rule_sumcounters(ctx, mk)
     RM.rule_logmerge_shape(ctx)
     RT.rule_mergeguard(ctx, COUNTMIN)
+    RT.rule_wrapper_once(ctx, COUNTMIN, ("merge",))
+    RT.rule_state_owner(ctx, COUNTMIN)
     ctx.floor("other-ro", 3)
     ctx.floor("msum", 3)
     ctx.floor("cover", 6)
@@ -424,6 +447,8 @@ def c11(ctx):
     RM.rule_pure(ctx)
     RM.rule_uwidth(ctx)
     RM.rule_blocks(ctx)
+    RM.rule_dfg(ctx)
+    ctx.floor("dfg", 8 + 16 + 1 - 4)
     ctx.floor("pure", 20)
     ctx.floor("uwidth", 12)
     ctx.floor("blocksize", 10)
